@@ -1,2 +1,3 @@
 import AM.Model.Dedup
+import AM.Model.Group
 import AM.Props.C04
